@@ -53,7 +53,18 @@ def main(argv):
     tag = re.sub(r'[^A-Za-z0-9]', '_', d)[-40:]
     wt = '/tmp/sv_%s_%d' % (tag, os.getpid())
     res = dict(dir=d, property=prop, tier=tier, seed=seed)
-    rc, out = sh(['git', '-C', '/repo', 'worktree', 'add', '-q', '--detach', wt, 'HEAD'])
+    base = 'HEAD'
+    try:
+        # a change written against an earlier /repo commit whose patch no longer applies on HEAD runs on that commit
+        mj = json.load(open(os.path.join(d, 'meta.json')))
+        if mj.get('base_commit'):
+            rcx, _ = sh(['git', '-C', '/repo', 'apply', '--check', os.path.join(d, 'patch.diff')])
+            if rcx:
+                base = mj['base_commit']
+    except Exception:
+        pass
+    res['base'] = base
+    rc, out = sh(['git', '-C', '/repo', 'worktree', 'add', '-q', '--detach', wt, base])
     if rc:
         print('worktree failed', out)
         return 2
